@@ -24,7 +24,8 @@ FAMILIES = ["gauss_cov_scalar", "gauss_cov_vec", "gauss_cov_full", "gauss_prec_f
             "gauss_sqrtprec", "gauss_sparse_cov", "gauss_sparse_prec", "gmrf_zero", "gmrf_periodic",
             "gmrf_neumann", "gmrf2d", "normal", "gamma", "invgamma", "beta", "laplace", "lognormal",
             "uniform", "cauchy", "mhn", "gauss_sqrtprec_lower", "gauss_sqrtprec_full", "gauss_sqrtcov_upper",
-            "gauss_sqrtcov_full", "gauss_prec_vec", "user_defined_gauss"]
+            "gauss_sqrtcov_full", "gauss_prec_vec", "gauss_geom_cont1d", "gauss_geom_image2d", "normal_geom_cont1d",
+            "gamma_geom_discrete", "user_defined_gauss"]
 
 
 def build_dist(rec):
@@ -54,6 +55,18 @@ def build_dist(rec):
         return D.Gaussian(mean, sqrtcov=np.eye(n) + np.triu(B))
     if fam == "gauss_sqrtcov_full":
         return D.Gaussian(mean, sqrtcov=np.eye(n) + B)
+    if fam == "gauss_geom_cont1d":
+        import cuqi
+        return D.Gaussian(mean, 0.7, geometry=cuqi.geometry.Continuous1D(np.linspace(0, 1, n)))
+    if fam == "gauss_geom_image2d":
+        import cuqi
+        return D.Gaussian(np.random.RandomState(z).randn(9), np.linspace(0.5, 2.0, 9), geometry=cuqi.geometry.Image2D((3, 3)))
+    if fam == "normal_geom_cont1d":
+        import cuqi
+        return D.Normal(mean, 0.6, geometry=cuqi.geometry.Continuous1D(np.linspace(0, 1, n)))
+    if fam == "gamma_geom_discrete":
+        import cuqi
+        return D.Gamma(np.linspace(1.0, 3.0, n), 1.5, geometry=cuqi.geometry.Discrete(["v%d" % i for i in range(n)]))
     if fam == "gauss_prec_vec":
         return D.Gaussian(mean, prec=np.linspace(0.5, 2.0, n))
     if fam == "gauss_sparse_cov":
